@@ -27,19 +27,19 @@ MODELLED_NOT_VERIFIED = [
     "tokenizer.py, nexusprocessing.py, newickreader.py, phylipreader.py, fastareader.py, nexusreader.py (repaired control flow) and tied "
     "to the code by the per-input comparison of token lists, verdicts, tree shapes and row lengths; the delimiter tables come from Gen/Tables.lean",
     "C20: Python float()/int() acceptance is modelled for ASCII numerals only (generators stay inside ASCII digits); str.upper()/lower() for ASCII + Latin-1 letters",
-    "C20: NeXML is not among the four readers of the statement; comment-metadata regexes, CHARSET positions beyond termination, continuous "
-    "matrices and state-alphabet construction are outside the model (the oracle still judges every read of them)",
+    "C20: NeXML is not among the four readers of the statement; comment-metadata regexes and the construction of state alphabets are outside "
+    "the model (symbol sets are handed over as data; the oracle still judges every read)",
     "C20: the interpreter recursion limit is a runtime resource the model cannot exhibit (Newick nesting beyond it: known finding)",
     "C20: reads with reader options (preserve_underscores, suppress_*_taxa, rooting, store_tree_weights, terminating_semicolon_required, ...) "
     "are judged by the oracle only; the model is of the default options",
 ]
 EXPLANATION = ("Theorems (Props/C20.lean, about the definitions drv_c20 runs; every loop is a total function without fuel): tokenizer_progress, "
-               "token_count_bounded; newick_statement_progress + newick_never_internal (the statement loop consumes input, so tree_iter terminates); "
-               "newick_balanced (an accepted statement's structural tokens - a quoted '(' is a label - are balanced and end in ';'); ok_dims (the "
-               "declared-versus-found guards of the PHYLIP reader); reader_loop_rule + nexus_never_internal: for every text, readNexus - all block "
-               "and statement loops - returns a result or a parse error, the no-progress marker of the model's loops is unreachable (termination "
-               "clause, unconditional).  The 'no AttributeError/IndexError' clause is evaluated on the implementation by the oracle; the model has "
-               "no None tokens by construction.")
+               "token_count_bounded; newick_statement_progress, newick_never_internal, newick_balanced, nesting_sub_safe, skipSemis_leaves_token, "
+               "newick_steps_linear; ok_dims, phylip_never_internal (no index out of range, incl. taxon_namespace[paged_row]), phylip_loops_bounded; "
+               "fasta_never_internal, fasta_rows_nonempty; reader_loop_rule, reader_loop_rounds_linear, nexus_never_internal (all NEXUS block and "
+               "statement loops incl. CHARSET position lists and continuous matrices), nexus_matrix_dims; eof_is_parse_error: every truncation of "
+               "every text is accepted or a parse error in all four reader models.  The 'no AttributeError/IndexError' clause for the "
+               "implementation itself is evaluated by the oracle.")
 
 ROUTES = {
     "newick": ["treelist", "treelist", "treelist", "tree", "dataset"],
@@ -131,7 +131,24 @@ def kw(rng, word):
     return word.capitalize()
 
 
+def gen_continuous_rows(rng, labs, nchar, interleave):
+    vals = [[rng.choice(["1.5", "0", "-2.25", "1e-2", "3", ".5", "7."]) for _ in range(nchar)] for _ in labs]
+    lines = []
+    if interleave:
+        cuts = sorted(set([0, nchar] + [rng.randint(1, nchar) for _ in range(rng.choice([0, 1]))]))
+        for a, b in zip(cuts, cuts[1:]):
+            for lab, v in zip(labs, vals):
+                lines.append("    %s %s" % (lab, " ".join(v[a:b])))
+            lines.append("")
+    else:
+        for lab, v in zip(labs, vals):
+            lines.append("    %s %s" % (lab, rng.choice([" ", "\n      "]).join(v)))
+    return "\n".join(lines)
+
+
 def gen_matrix_rows(rng, labs, nchar, datatype, interleave, matchchar):
+    if datatype == "CONTINUOUS":
+        return gen_continuous_rows(rng, labs, nchar, interleave)
     syms = {"DNA": "ACGT", "RNA": "ACGU", "PROTEIN": "ACDEFGHIKL", "STANDARD": "01"}[datatype]
     seqs = []
     for i, _ in enumerate(labs):
@@ -199,7 +216,7 @@ def gen_nexus(rng, structure=None):
             L.append(rng.choice(["END;", "end;", "ENDBLOCK;", "END ;"]))
         elif b in ("chars", "data"):
             nmat += 1
-            datatype = rng.choice(["DNA", "DNA", "STANDARD", "PROTEIN", "RNA"])
+            datatype = rng.choice(["DNA", "DNA", "STANDARD", "PROTEIN", "RNA", "CONTINUOUS"])
             interleave = rng.random() < 0.3
             matchchar = rng.random() < 0.25
             L.append("%s %s;" % (kw(rng, "BEGIN"), kw(rng, "DATA" if b == "data" else "CHARACTERS")))
@@ -899,9 +916,12 @@ def queue_model(ctx, dendropy, case, klass, summary, st):
             st.pending.append(("fasta %s %s" % (dna_symbols(dendropy), hex6(case["text"])), case, got.strip(), "fasta"))
     elif schema == "nexus" and case["route"] == "dataset" and not case["kwargs"]:
         if klass == "ok":
-            got = "ok tns=%s trees=%s mats=%s" % (",".join(str(len(t)) for t in obj_of(summary).taxon_namespaces),
-                                                   ",".join(str(len(tl)) for tl in obj_of(summary).tree_lists),
-                                                   "/".join(".".join(str(x) for x in lens) for lens in summary["rows"]))
+            got = "ok tns=%s trees=%s mats=%s sets=%s" % (
+                ",".join(str(len(t)) for t in obj_of(summary).taxon_namespaces),
+                ",".join(str(len(tl)) for tl in obj_of(summary).tree_lists),
+                "/".join(".".join(str(x) for x in lens) for lens in summary["rows"]),
+                "/".join(".".join(str(len(cs.character_indices)) for cs in cm.character_subsets.values())
+                         for cm in obj_of(summary).char_matrices))
         elif klass == "parse":
             got = "parse"
         else:
